@@ -61,6 +61,34 @@ VerboseClauses(e) ==
    \cup Chk(Len(e.parts) >= 6 /\ \A k \in 1..5 : e.parts[k] = e.direct[k], "VerboseMatchesMode")
    \cup Chk(e.norefs = e.tot, "ReferencesSwitchNoRefs")
 
+\* ---- option combinations on a species that carries a References object (enthalpy offset):
+\* e.T, e.refoff (expected H/RT(with references) - H/RT(without) = -sum(offset n) T_ref / T, harness witness
+\* from the offsets it chose), e.rows = one record per (use_references, S_elements) combination:
+\*   [ur, se, G, H, S (dimensionless), Gd, Hd, Sd (J/mol, J/mol/K), U, F, Ud, Fd]
+\* The defining relations hold under EVERY option combination, for the dimensionless getters and for the
+\* dimensional ones (G = H - T S in J/mol), and use_references switches exactly the enthalpy offset.
+OptClauses(e) ==
+   LET R == e.rows
+       ts(r) == Mul(e.T, r.Sd)
+       on(se) == CHOOSE r \in SetOf(R) : r.ur /\ r.se = se
+       off(se) == CHOOSE r \in SetOf(R) : ~r.ur /\ r.se = se
+   IN Chk(\A i \in Idx(R) : CloseIn(R[i].G, Sub(R[i].H, R[i].S), {R[i].H, R[i].S}, 7), "OptGHS")
+      \cup Chk(\A i \in Idx(R) : CloseIn(R[i].Gd, Sub(R[i].Hd, ts(R[i])), {R[i].Hd, ts(R[i])}, 7), "OptDimGHS")
+      \cup Chk(\A i \in Idx(R) : CloseIn(R[i].Fd, Sub(R[i].Ud, ts(R[i])), {R[i].Ud, ts(R[i])}, 7), "OptDimFUS")
+      \cup Chk(\A i \in Idx(R) : CloseIn(R[i].F, Sub(R[i].U, R[i].S), {R[i].U, R[i].S}, 7), "OptFUS")
+      \cup Chk(\A se \in {TRUE, FALSE} :
+                 /\ CloseIn(Sub(on(se).H, off(se).H), e.refoff, {on(se).H, off(se).H}, 6)
+                 /\ CloseIn(Sub(on(se).G, off(se).G), e.refoff, {on(se).G, off(se).G}, 6)
+                 /\ CloseIn(Sub(on(se).Gd, off(se).Gd), Sub(on(se).Hd, off(se).Hd), {on(se).Gd, off(se).Gd}, 6)
+                 /\ on(se).S = off(se).S /\ on(se).Sd = off(se).Sd, "UseReferencesSwitchesOffset")
+      \cup Chk(\A ur \in {TRUE, FALSE} :
+                 LET a == CHOOSE r \in SetOf(R) : r.ur = ur /\ r.se
+                     b == CHOOSE r \in SetOf(R) : r.ur = ur /\ ~r.se
+                 IN /\ a.H = b.H /\ a.Hd = b.Hd /\ a.U = b.U
+                    \* the element entropy leaves S and enters G and F with the opposite sign
+                    /\ CloseIn(Sub(b.S, a.S), Sub(a.G, b.G), {a.S, b.S, a.G, b.G}, 6)
+                    /\ CloseIn(Sub(b.S, a.S), Sub(a.F, b.F), {a.S, b.S, a.F, b.F}, 6), "SelementsActsOnSGF")
+
 \* the same with S_elements = TRUE (entropy of the elements subtracted): e.tot / e.parts with the option,
 \* e.tot0 / e.parts0 without it.  The total must drop by one amount S_ele and still be the sum of the
 \* verbose vector.  Known deviation of the library, named exactly: S_ele is subtracted from EVERY entry of
@@ -200,6 +228,7 @@ Clauses(e) ==
    CASE e.ev = "thermo" -> ThermoClauses(e)
      [] e.ev = "verbose" -> VerboseClauses(e)
      [] e.ev = "verbose_sel" -> SelClauses(e)
+     [] e.ev = "opt" -> OptClauses(e)
      [] e.ev = "harmonic" -> HarmonicClauses(e)
      [] e.ev = "einstein" -> EinsteinClauses(e)
      [] e.ev = "debye" -> DebyeClauses(e)
